@@ -63,15 +63,18 @@ package cred
 // After a successful save the cached content is exactly what was written and renamed over the server's own
 // store file (so that the "unchanged file" fast path of LoadFromFile compares against what is on disk).
 //@ func (*ManagedServer).saveToFile
-//@   requires !isnil(s) && len(s.path) <= 4096
+//@   requires !isnil(s) && len(s.path) <= 4096 && !$ioFailed
 // Crash safety (property C20): a plain write truncates its destination and then fills it, so at some
 // instant the destination holds a prefix of the new content. The live store file is therefore never the
 // destination of a write; it is only ever replaced as a whole, by renaming over it a file that was
 // written, synced and closed successfully.
 //@   callsite writeFileSync: arg0 != s.path && arg0 == tmpPath
-//@   callsite Rename: arg0 == tmpPath && arg1 == s.path
+//@   callsite Rename: arg0 == tmpPath && arg1 == s.path && !$ioFailed
 //@   callsite Remove: arg0 != s.path
 //@   ensures isnil(result) ==> s.cachedContent == string(b)
 
+// A nil result means every write, the sync and the close of the file succeeded.
 //@ func writeFileSync
-//@   modifies nothing
+//@   requires !$ioFailed
+//@   modifies $ioFailed
+//@   ensures isnil(result) ==> !$ioFailed
